@@ -73,6 +73,11 @@ def worker(args):
     ml = dis.maxlen
 
     hist = [None]
+    import amoco.cas.expressions as E
+    try:
+        pcsize = cpu.PC().size
+    except Exception:
+        pcsize = 32
 
     def finding(stage, exc, b, extra=None):
         key = "%s|%s|%s|%s" % (name, stage, site(exc) if isinstance(exc, BaseException) else exc, type(exc).__name__ if isinstance(exc, BaseException) else "malformed")
@@ -146,6 +151,34 @@ def worker(args):
                 raise
             except Exception as x:
                 finding("semantics", x, b)
+            # the same instruction once it has an address (as set by the sweep / read_instruction): rendering of relative
+            # branches and pc-relative semantics take other paths then (same stage names: a crash site is one finding
+            # whether or not the address is needed to reach it)
+            try:
+                i.address = E.cst(0x401000 if pcsize >= 24 else 0x1000, pcsize)
+            except Exception as x:
+                finding("address", x, b)
+            else:
+                for stage, f in (("str", lambda: str(i)), ("toks", lambda: i.toks())):
+                    try:
+                        f()
+                    except Timeout:
+                        raise
+                    except Exception as x:
+                        finding(stage, x, b)
+                for fname, F in fmts:
+                    try:
+                        F(i)
+                    except Timeout:
+                        raise
+                    except Exception as x:
+                        finding("format:" + fname, x, b)
+                try:
+                    i(mapper())
+                except Timeout:
+                    raise
+                except Exception as x:
+                    finding("semantics", x, b)
             if len(res["samples"]) < 1:
                 res["samples"].append({"isa": name, "mode": k, "bytes": b.hex(), "mnemonic": i.mnemonic, "length": len(i.bytes)})
         except Timeout:
